@@ -56,7 +56,8 @@ type SimKMS struct {
 	Keys                             []*simKey // creation order
 	Calls                            int
 	Polls                            int
-	FailAt                           int    // RPC index that fails with Unavailable (-1: none)
+	FailAt                           int // RPC index that fails with FailCode (-1: none)
+	FailCode                         codes.Code
 	FailedRPC, FailedArg             string // the RPC the injected failure hit (name, short resource)
 	HangGets                         int    // the next n GetCryptoKeyVersion calls block until their context ends
 	// Paging policy: 0 exact pages; 1 short pages (1..page_size items, token while more remain);
@@ -97,7 +98,11 @@ func (s *SimKMS) enter(name, arg string) error {
 	if idx == s.FailAt {
 		s.FailedRPC, s.FailedArg = name, arg
 		s.R.Fault("kms-rpc-error", "rpc#%d %s", idx, name)
-		return status.Errorf(codes.Unavailable, "simkms: injected failure of %s", name)
+		code := s.FailCode
+		if code == codes.OK {
+			code = codes.Unavailable
+		}
+		return status.Errorf(code, "simkms: injected failure of %s", name)
 	}
 	if s.Calls <= 400 {
 		s.R.Eventf("kms rpc#%d %s %s", idx, name, arg)
